@@ -446,8 +446,8 @@ class Monitor(object):
                         (rec.get("output") is not None) == (st == "SUCCEEDED") and
                         ((rec.get("error") is not None) == (st == "FAILED") or (st == "FAILED" and "error" in rec)) and
                         (not term or st != "SUCCEEDED" or rec.get("error") is None))
-            if st == "FAILED" and "error" not in rec:
-                shape_ok = False
+            if st == "FAILED" and ("error" not in rec or "cause" not in rec):
+                shape_ok = False        # error *and* cause are set iff FAILED (a failure without a Cause text sets it to null)
             if st != "FAILED" and (rec.get("error") is not None or rec.get("cause") is not None):
                 shape_ok = False
             if not shape_ok:
@@ -698,7 +698,12 @@ def run_property(chk, prop, laws, quick_gen=300, thorough_gen=4000, scns=None, n
     classify_for = fan_protocol_stage(chk, pending_runs) if fan else (lambda pr: None)
     # --- outcome laws that need the reference semantics: one batched driver call
     mlines = [pr["mline"] for pr in pending_runs if pr["mline"]]
-    manswers = iter(common.driver(mlines, shards=8))
+    # the schedules of one scenario mostly ask the same question (same machine, input and worker answers): asked once
+    uniq = list(dict.fromkeys(mlines))
+    answer_of = dict(zip(uniq, common.driver(uniq, shards=8)))
+    chk.dist("reference_runs.asked", len(mlines))
+    chk.dist("reference_runs.distinct", len(uniq))
+    manswers = iter([answer_of[l] for l in mlines])
     for pr in pending_runs:
         mo = None
         if pr["mline"]:
